@@ -350,10 +350,26 @@ def check_target_test(prog, rep, f, entry, k, L, gt, src, vals, px):
                 e = [a for a in walk_atoms(post) if isinstance(a, App) and a.name in ('read', 'elem') and a.args[0] == vals]
                 full = Lv.kind in ('range', 'prange') and Lv.lo == Rat.const(0) and Lv.hi == Rat.atom(n_at[0]) and Lv.step == Rat.const(1) \
                     and len(e) == 1 and len(e[0].args) == 2 and e[0].args[1] == Rat.sym(Lv.var)
+                # one iteration of the values loop, evaluated: the flag after it is the value set on a path that leaves the
+                # loop (`flag = True; break`) if such a path is taken, else the end-of-iteration value
+                brk = [(g_, envb.get(name)) for g_, envb, nb in getattr(Lv, 'breaks', []) if envb.get(name) is not None]
+                for g_, bv in brk:
+                    e = e or [a for a in guard_atoms(g_) if isinstance(a, App) and a.name in ('read', 'elem') and a.args[0] == vals]
+                full = Lv.kind in ('range', 'prange') and Lv.lo == Rat.const(0) and Lv.hi == Rat.atom(n_at[0]) and Lv.step == Rat.const(1) \
+                    and len(e) >= 1 and len(e[0].args) == 2 and e[0].args[1] == Rat.sym(Lv.var)
                 tab = []
                 for prev in (0, 1):
                     for vv, ev in ((5, 5), (5, 7), (0, 0)):
-                        r = evaluate(post, {P: Fraction(prev), v: Fraction(vv), e[0]: Fraction(ev)}) if e else None
+                        r = None
+                        if e:
+                            env_ = {P: Fraction(prev), v: Fraction(vv), e[0]: Fraction(ev)}
+                            taken = [bv for g_, bv in brk if all(eval_cond_full(x_, env_) for x_ in g_)]
+                            if taken:
+                                bv = taken[0]
+                                r = (1 if bv[1] else 0) if isinstance(bv, tuple) and bv and bv[0] == 'const' else \
+                                    (evaluate(bv, env_) if isinstance(bv, Rat) else None)
+                            else:
+                                r = evaluate(post, env_)
                         tab.append((prev, vv, ev, r, 1 if (prev or vv == ev) else 0))
                 badf = [t for t in tab if t[3] != t[4]]
                 if badf or not full:
